@@ -715,6 +715,14 @@ func (c *diskCache) get(ctx context.Context, kind cache.EntryKind, hash string, 
 
 	uncompressedOnDisk := (kind != cache.CAS) || (c.storageMode == casblob.Identity)
 	if uncompressedOnDisk {
+		if sizeOnDisk != foundSize {
+			// The backend stream ended early (or delivered too much)
+			// without reporting an error. Do not cache a truncated blob.
+			_ = rcf.Close()
+			return nil, -1, internalErr(fmt.Errorf("expected %d bytes from the proxy backend, received %d",
+				foundSize, sizeOnDisk))
+		}
+
 		if offset > 0 {
 			_, err = rcf.Seek(offset, io.SeekStart)
 			if err != nil {
